@@ -7,7 +7,9 @@ LEVEL = "proof"
 EXPLANATION = ("Three layers of K2 value lemmas whose right-hand sides are generated from the macro names: (1) the 16 vacancy-transfer "
                "constant functions of xrf_cross_sections_aux-private.c; (2) the 32 vacancy-production functions of "
                "xrf_cross_sections_aux.c (4 variants x L1..M5); (3) the four CS_FluorShell_Kissel_* variants for each of K..M5 and "
-               "for every other shell value. All Z, all energies, all table contents (hence both Kissel configurations).")
+               "for every other shell value; (4) the line dispatch: Siegbahn groups, L-beta sum and out-of-range macros for all four variants, "
+               "all 383 single-line macros enumerated with a constant line for the full-cascade instantiation (the other three share the macro body; their L-beta sum is attempted in the thorough tier only). "
+               "All Z, all energies, all table contents (hence both Kissel configurations).")
 ASSUMPTIONS = [
     "A-gen: the glue in pr_data.c main that stores layer (1) into xrf_cross_sections_constants_* is not under contract",
     "orderings none <= radiative <= full need float monotonicity and are not decided",
@@ -37,6 +39,26 @@ def groups(sc, tier):
                         remove_bodies=rm, backends=("cvc5",), timeout=600, functions=[fn], stubs_used=u3, no_safety=True,
                         export_local=True, native_harness=p23, unwind=33, restrict_retry="V_RESTRICT_LEAVES",
                         expect_canaries=None if t == "other" else ["defined"]))
+    # line dispatch (macro CS_FLUORLINE_BODY): Siegbahn groups + out-of-range for all four instantiations; the 383 single-line
+    # macros enumerated with a constant line in chunks of 32 for the full-cascade instantiation
+    st4, u4 = common.stubs(sc, ["RadRate"] + ["CS_FluorShell_Kissel_" + v for v in ("no_Cascade", "Radiative_Cascade", "Nonradiative_Cascade", "Cascade")], "kline")
+    rm4 = rm + ["CS_FluorShell_Kissel_" + v for v in ("no_Cascade", "Radiative_Cascade", "Nonradiative_Cascade", "Cascade")]
+    kwl = dict(sources=["src/kissel_pe.c"], extra=["harness/h_kline.c", st4, common.STATE], remove_bodies=rm4, backends=("cvc5",), timeout=900,
+               stubs_used=u4, no_safety=True, export_local=True, native_harness="harness/h_kline.c", restrict_retry="V_RESTRICT_LEAVES")
+    for v in ("Cascade", "no_Cascade", "Radiative_Cascade", "Nonradiative_Cascade"):
+        gs.append(Group("C08.K2.line.%s.groups" % v, "K2", "lemma_kline_groups", harness_defines=["-DKBASE=" + v], unwind=16,
+                        functions=["CS_FluorLine_Kissel_" + v], expect_canaries=["kline other"], **kwl))
+        gs.append(Group("C08.K2.line.%s.LB" % v, "K2", "lemma_kline_groups", harness_defines=["-DKBASE=" + v, "-DWITH_LB"], unwind=16,
+                        functions=["CS_FluorLine_Kissel_" + v], expect_canaries=["kline LB"], attempt_only=True,
+                        note="L-beta = sum of 13 guarded member products: attempted in the thorough tier only", **kwl))
+    nlines = len([1 for _, vv in ctx["mac"].lines_all if vv < 0])
+    # lines of N, O, P shells (all rejected: no product) in chunks of 32, lines of K..M5 (one product each) in chunks of 8
+    first_km = min(vv for n_, vv in ctx["mac"].lines_all if vv < 0 and __import__("re").match(r"^(K|L[123]|M[1-5])(?![0-9])", n_))
+    chunks = [(lo, min(lo + 31, first_km - 1)) for lo in range(-nlines, first_km, 32)] + [(lo, min(lo + 7, -1)) for lo in range(first_km, 0, 8)]
+    for lo, hi in chunks:
+        gs.append(Group("C08.K2.line.Cascade.%d..%d" % (lo, hi), "K2", "lemma_kline_enum", unwind=36,
+                        harness_defines=["-DKBASE=Cascade", "-DENUM_LO=(%d)" % lo, "-DENUM_HI=(%d)" % hi],
+                        functions=["CS_FluorLine_Kissel_Cascade"], expect_canaries=["enumeration end"], **kwl))
     return gs
 
 
